@@ -8,7 +8,8 @@ import (
 // Discovery aid (not a registered property of the manifest): prints the
 // lockset verdict for every field of a struct so that the guarded-by tables
 // can be built and confirmed by reading.
-//   LS_PKG=lang LS_TYPE=Variables LS_MUTEX=mutex LS_SCOPE=lang,builtins/... murexlint -noevidence LOCKSTATS
+//
+//	LS_PKG=lang LS_TYPE=Variables LS_MUTEX=mutex LS_SCOPE=lang,builtins/... murexlint -noevidence LOCKSTATS
 func init() {
 	register("LOCKSTATS", "discovery aid", func(c *Ctx) {
 		pkg, typ, mu := os.Getenv("LS_PKG"), os.Getenv("LS_TYPE"), os.Getenv("LS_MUTEX")
